@@ -179,6 +179,7 @@ func (p *Program) InlineNewHelpers(baseline *Baseline) {
 			for _, fd := range p.AllFuncDeclsRaw(pkg) {
 				if !p.hidden[fd] {
 					in.norm.canonCompare(fd) // `*(&x)` left by pointer arguments
+					in.norm.canonArrayTable(fd)
 					// a state struct handed from phase to phase is, with the phases inlined, a bundle of locals
 					if in.norm.scalarReplace(fd) {
 						for round := 0; round < 3; round++ {
@@ -213,8 +214,35 @@ func (in *inliner) inlinableWith(fd *ast.FuncDecl, obj *types.Func, allowRecover
 		return false
 	}
 	sig := obj.Type().(*types.Signature)
-	if sig.TypeParams().Len() > 0 || sig.RecvTypeParams().Len() > 0 || sig.Variadic() {
+	if sig.RecvTypeParams().Len() > 0 || sig.Variadic() {
 		return false
+	}
+	// a generic function whose body never names its type parameters (they only type the parameters: a
+	// loop over a []T calling a method of T's constraint) reads the same for every instantiation
+	if sig.TypeParams().Len() > 0 {
+		namesT := false
+		ast.Inspect(fd.Body, func(n ast.Node) bool {
+			if id, isID := n.(*ast.Ident); isID {
+				if tn, isTN := in.info.Uses[id].(*types.TypeName); isTN {
+					if _, isTP := tn.Type().(*types.TypeParam); isTP {
+						namesT = true
+					}
+				}
+			}
+			return !namesT
+		})
+		if namesT {
+			return false
+		}
+		// …and only when every type parameter is constrained by a named interface with methods (the body
+		// then calls those methods: `for _, o := range opts { o.applyToClient(c) }`); helpers over `any`
+		// are plumbing that the rules follow as calls
+		for i := 0; i < sig.TypeParams().Len(); i++ {
+			iface, isIface := sig.TypeParams().At(i).Constraint().Underlying().(*types.Interface)
+			if !isIface || iface.NumMethods() == 0 {
+				return false
+			}
+		}
 	}
 	if fd.Name.Name == "init" || fd.Name.Name == "main" {
 		return false
@@ -263,7 +291,14 @@ func singleExpr(fd *ast.FuncDecl) ast.Expr {
 func (in *inliner) calleeOf(call *ast.CallExpr) (*types.Func, *ast.FuncDecl, ast.Expr) {
 	var id *ast.Ident
 	var recv ast.Expr
-	switch f := call.Fun.(type) {
+	fun := call.Fun
+	// an explicit instantiation f[T](…)
+	if ix, isIx := fun.(*ast.IndexExpr); isIx {
+		fun = ix.X
+	} else if ixl, isIxl := fun.(*ast.IndexListExpr); isIxl {
+		fun = ixl.X
+	}
+	switch f := fun.(type) {
 	case *ast.Ident:
 		id = f
 	case *ast.SelectorExpr:
@@ -278,6 +313,9 @@ func (in *inliner) calleeOf(call *ast.CallExpr) (*types.Func, *ast.FuncDecl, ast
 		return nil, nil, nil
 	}
 	fn, _ := in.info.Uses[id].(*types.Func)
+	if fn != nil && fn.Origin() != nil {
+		fn = fn.Origin()
+	}
 	if fn == nil {
 		// a local closure that is only ever called (see closureCands)
 		if v, ok := in.info.Uses[id].(*types.Var); ok && in.closureFn[v] != nil && recv == nil {
@@ -1126,6 +1164,11 @@ func (in *inliner) hoistNested(stmt ast.Stmt, self *types.Func) ast.Stmt {
 	case *ast.IfStmt:
 		if s.Init == nil {
 			slots = append(slots, &s.Cond)
+		}
+	case *ast.SwitchStmt:
+		// `switch kindOf(x) {…}`: the tag is evaluated once, before anything else
+		if s.Init == nil && s.Tag != nil {
+			slots = append(slots, &s.Tag)
 		}
 	case *ast.DeferStmt:
 		for i := range s.Call.Args {
